@@ -118,6 +118,24 @@ func pcFunc(pc uintptr) string {
 	return shortFn(f.Function)
 }
 
+// accessPoint makes the access at pc a scheduling point when its site is in
+// the racy set of this exploration (race-directed preemption: interleavings
+// around unsynchronised accesses are explored too, not only around
+// synchronisation operations).
+func (x *Exec) accessPoint(pc uintptr) {
+	if len(x.racySites) == 0 {
+		return
+	}
+	racy, ok := x.racyPC[pc]
+	if !ok {
+		racy = x.racySites[pcSite(pc)]
+		x.racyPC[pc] = racy
+	}
+	if racy {
+		Point(KAccess, nil, nil)
+	}
+}
+
 // R records a plain read of *p and returns p.
 func R[T any](p *T) *T {
 	x := X
@@ -128,7 +146,12 @@ func R[T any](p *T) *T {
 		return p
 	}
 	sink = unsafe.Pointer(p)
-	x.read(uintptr(unsafe.Pointer(p)), callerPC())
+	pc := callerPC()
+	x.accessPoint(pc)
+	if x.cur.abort {
+		return p
+	}
+	x.read(uintptr(unsafe.Pointer(p)), pc)
 	return p
 }
 
@@ -143,7 +166,12 @@ func W[T any](p *T) *T {
 		return p
 	}
 	sink = unsafe.Pointer(p)
-	x.write(uintptr(unsafe.Pointer(p)), callerPC())
+	pc := callerPC()
+	x.accessPoint(pc)
+	if x.cur.abort {
+		return p
+	}
+	x.write(uintptr(unsafe.Pointer(p)), pc)
 	return p
 }
 
@@ -159,6 +187,10 @@ func RW[T any](p *T) *T {
 	}
 	sink = unsafe.Pointer(p)
 	pc := callerPC()
+	x.accessPoint(pc)
+	if x.cur.abort {
+		return p
+	}
 	x.read(uintptr(unsafe.Pointer(p)), pc)
 	x.write(uintptr(unsafe.Pointer(p)), pc)
 	return p
@@ -176,7 +208,12 @@ func MR[M ~map[K]V, K comparable, V any](m M) M {
 	if x == nil || !x.raceOn || m == nil || x.cur.abort {
 		return m
 	}
-	x.read(mapAddr[M, K, V](m), callerPC())
+	pc := callerPC()
+	x.accessPoint(pc)
+	if x.cur.abort {
+		return m
+	}
+	x.read(mapAddr[M, K, V](m), pc)
 	return m
 }
 
@@ -190,7 +227,12 @@ func MW[M ~map[K]V, K comparable, V any](m M) M {
 	if !x.raceOn {
 		return m
 	}
-	x.write(mapAddr[M, K, V](m), callerPC())
+	pc := callerPC()
+	x.accessPoint(pc)
+	if x.cur.abort {
+		return m
+	}
+	x.write(mapAddr[M, K, V](m), pc)
 	return m
 }
 
@@ -242,12 +284,19 @@ func (x *Exec) race(addr uintptr, a access, ak string, b access, bk string) {
 		p, q = q, p
 	}
 	sig := p + "~" + q
+	if !harnessFn(fa) {
+		x.racyFound[pcSite(a.pc)] = true
+	}
+	if !harnessFn(fb) {
+		x.racyFound[pcSite(b.pc)] = true
+	}
 	if x.raceSeen[sig] {
 		return
 	}
 	x.raceSeen[sig] = true
 	x.races = append(x.races, RaceInfo{Addr: addr, A: ak + " " + pcSite(a.pc) + fmt.Sprintf(" [thread %d]", a.tid),
-		B: bk + " " + pcSite(b.pc) + fmt.Sprintf(" [thread %d]", b.tid), Signature: sig, Lib: !harnessFn(fa) && !harnessFn(fb)})
+		B: bk + " " + pcSite(b.pc) + fmt.Sprintf(" [thread %d]", b.tid), Signature: sig, Lib: !harnessFn(fa) && !harnessFn(fb),
+		SiteA: pcSite(a.pc), SiteB: pcSite(b.pc), LibA: !harnessFn(fa), LibB: !harnessFn(fb)})
 }
 
 func harnessFn(fn string) bool {
